@@ -95,7 +95,9 @@ func solverCmd(name, file string, timeout time.Duration, seed int) *exec.Cmd {
 	default:
 		panic("unknown solver " + name)
 	}
-	return exec.Command("sh", "-c", fmt.Sprintf("ulimit -t %d; %s", secs+1, line))
+	// memory: a solver that blows up on one query (seen on a mutated tree: several z3 processes of many GB each, the
+	// kernel then killed the verifier itself) is stopped at 4 GB of address space and counts as undecided
+	return exec.Command("sh", "-c", fmt.Sprintf("ulimit -t %d; ulimit -v 4194304; %s", secs+1, line))
 }
 
 // raceSem bounds the number of obligations raced on three solvers at once (keeps timings stable under load)
